@@ -80,20 +80,11 @@ func (h *NFSProcedureHandler) handleReaddir(body io.Reader, reply *RPCReply, aut
 	buf.Write(cookieVerf[:])
 
 	entryCount := 0
-	maxReplySize := int(count) - 100
-	if maxReplySize < 128 {
-		maxReplySize = 128
-	}
 	reachedLimit := false
 
 	for i, entry := range entries {
 		if uint64(i) < cookie {
 			continue
-		}
-
-		if buf.Len() >= maxReplySize {
-			reachedLimit = true
-			break
 		}
 
 		// Skip entries with nil attrs
@@ -105,6 +96,22 @@ func (h *NFSProcedureHandler) handleReaddir(body io.Reader, reply *RPCReply, aut
 		fileId := entry.attrs.FileId
 		entry.mu.RUnlock()
 
+		// M1: Use path.Base() for name extraction
+		name := path.Base(entry.path)
+		if entry.path == "/" {
+			name = "/"
+		}
+
+		// The whole READDIR3resok must fit in the client's count (RFC 1813 3.3.16):
+		// this entry (value_follows, fileid, name, cookie) plus the list terminator
+		// and eof words that follow the last entry. The first entry is always sent,
+		// so that a client asking for less than one entry still makes progress.
+		entrySize := 4 + 8 + 4 + (len(name)+3)/4*4 + 8
+		if entryCount > 0 && buf.Len()+entrySize+8 > int(count) {
+			reachedLimit = true
+			break
+		}
+
 		xdrEncodeUint32(&buf, 1)
 
 		// R4: Copy fileId under RLock
@@ -112,11 +119,6 @@ func (h *NFSProcedureHandler) handleReaddir(body io.Reader, reply *RPCReply, aut
 			return nfsErrorWithPostOp(reply, NFSERR_IO), nil
 		}
 
-		// M1: Use path.Base() for name extraction
-		name := path.Base(entry.path)
-		if entry.path == "/" {
-			name = "/"
-		}
 		if err := xdrEncodeString(&buf, name); err != nil {
 			return nfsErrorWithPostOp(reply, NFSERR_IO), nil
 		}
@@ -211,19 +213,10 @@ func (h *NFSProcedureHandler) handleReaddirplus(body io.Reader, reply *RPCReply,
 
 	entryCount := 0
 	reachedLimit := false
-	maxReplySize := int(maxCount) - 200
-	if maxReplySize < 256 {
-		maxReplySize = 256
-	}
 
 	for i, entry := range entries {
 		if uint64(i) < cookie {
 			continue
-		}
-
-		if buf.Len() >= maxReplySize && entryCount > 0 {
-			reachedLimit = true
-			break
 		}
 
 		// Skip entries with nil attrs
@@ -235,6 +228,23 @@ func (h *NFSProcedureHandler) handleReaddirplus(body io.Reader, reply *RPCReply,
 		entryAttrsCopy := *entry.attrs
 		entry.mu.RUnlock()
 
+		// M1: Use path.Base() for name extraction
+		name := path.Base(entry.path)
+		if entry.path == "/" {
+			name = "/"
+		}
+
+		// The whole READDIRPLUS3resok must fit in the client's maxcount (RFC 1813
+		// 3.3.17): this entry (value_follows, fileid, name, cookie, post_op_attr with
+		// fattr3, post_op_fh3 with an 8-byte handle) plus the list terminator and eof
+		// words that follow the last entry. The first entry is always sent, so that a
+		// client asking for less than one entry still makes progress.
+		entrySize := 4 + 8 + 4 + (len(name)+3)/4*4 + 8 + (4 + 84) + (4 + 4 + 8)
+		if entryCount > 0 && buf.Len()+entrySize+8 > int(maxCount) {
+			reachedLimit = true
+			break
+		}
+
 		xdrEncodeUint32(&buf, 1)
 
 		entryCookie := uint64(i + 1)
@@ -243,11 +253,6 @@ func (h *NFSProcedureHandler) handleReaddirplus(body io.Reader, reply *RPCReply,
 			return nfsErrorWithPostOp(reply, NFSERR_IO), nil
 		}
 
-		// M1: Use path.Base() for name extraction
-		name := path.Base(entry.path)
-		if entry.path == "/" {
-			name = "/"
-		}
 		if err := xdrEncodeString(&buf, name); err != nil {
 			return nfsErrorWithPostOp(reply, NFSERR_IO), nil
 		}
